@@ -35,3 +35,7 @@ claim("C13",
 claim("C14",
       "Decides on all paths of the key handler and checkExitSequence: insert-before-check on presses, delete and no check on non-presses, signal only after every key of the sequence was found tracked (first miss returns false, empty sequence returns false first, loop covers the whole sequence), the completing press returns without any further effect, other presses proceed to note/action handling, single raiser of the signal.",
       COMMON_NOTE, "path-effect enumeration over go/ssa with one-level loop unrolling + loop-shape check + who-may-send")
+
+claim("C12",
+      "Decides on all paths of FindConfig the lookup order user[id], user[default], factory[id], factory[default] per device class (keyboard directories for keyboards, gamepad directories for joysticks), hit -> that entry with nil error, all-miss and other device types -> error; the directory/map/label table of the loader; per-file isolation in the walk callback (parse failure: skipped, nothing stored, walk continues; directories and non-.toml files unread); and the Walk-callback protocol (FileInfo used only after the error parameter was tested), with a positive/negative control.",
+      COMMON_NOTE, "path-effect enumeration over go/ssa + constant-table cross-check + dominating-guard rule for Walk callbacks (with controls)")
